@@ -168,7 +168,7 @@ func c12RespondOnce(c *Ctx) {
 			}
 			if fnName(callee) == "golang.org/x/crypto/ssh/agent.ServeAgent" {
 				// the delegation writes one reply per request through the forwarder, which must wrap the served connection
-				return isForwarderOver(w, cv.Call.Args[1], "p1")
+				return isForwarderOver(w, fn, cv.Call.Args[1], 1)
 			}
 		}
 		return false
